@@ -196,7 +196,13 @@ func AllUserActions() []*UserAction {
 				return updateRolloutSpec(w, sc, func(ro *rolloutsv1beta1.Rollout) {
 					steps := ro.Spec.Strategy.GetSteps()
 					for i := range steps {
-						steps[i].Replicas = parseIS(fmt.Sprint(i + 1))
+						// 1,1,2,3,...: non-decreasing and BELOW what a percentage plan has usually reached by
+						// then, so that the edit asks for less than what is already exposed
+						n := i
+						if n < 1 {
+							n = 1
+						}
+						steps[i].Replicas = parseIS(fmt.Sprint(n))
 					}
 				})
 			},
